@@ -220,7 +220,11 @@ class World(BaseWorld):
             op["temperature_range"] = [T0, Tf]
         elif mode == "explicit":
             k = rng.randint(1, 5)
+            if rng.random() < c.get("p_long", 0.05):
+                k = rng.choice([12, 40, 150])
             op["schedule"] = [rng.choice([0.5, 1, 2, 3.0, 0.25, 8, 0, 1.5]) for _ in range(k)]
+            if rng.random() < 0.3:
+                op["sched_as"] = rng.choice(["tuple", "ndarray", "gen", "range_like"])
         elif mode == "zeros":
             op["schedule"] = [0] * rng.randint(1, 4) if rng.random() < 0.7 else [0.0, 0]
         else:
@@ -417,6 +421,16 @@ class World(BaseWorld):
                       initial_state=init, temperature_range=tuple(op["temperature_range"]) if op.get("temperature_range") else None,
                       schedule=op["schedule"] if isinstance(op["schedule"], str) else list(op["schedule"]),
                       in_order=op["in_order"], seed=op.get("seed"))
+        # the schedule is documented as "an iterable of floats": hand it over in other container types too
+        sa = op.get("sched_as")
+        if sa and not isinstance(op["schedule"], str):
+            import numpy as _np
+            sched = list(op["schedule"])
+            kwargs["schedule"] = {"tuple": tuple(sched), "ndarray": _np.array(sched, dtype=float), "gen": (t for t in sched),
+                                  "range_like": iter(sched)}[sa]
+            self.probe("schedule_as_" + sa)
+        if op.get("temperature_range") and op.get("range_as_list"):
+            kwargs["temperature_range"] = list(op["temperature_range"])
         # arguments recorded as "omitted" are really left out, so the documented defaults are exercised
         if op.get("anneal_duration") is None:
             del kwargs["anneal_duration"]
